@@ -18,8 +18,8 @@ type LockCfg struct {
 	Mutators         []string
 	Exempt           map[string]string // short func key -> reason
 	HeldBy           map[string]int
-	FreshCtors       []string // short func keys whose result is a fresh object
-	MinFuncs         int      // floor: functions with direct accesses confirmed by hand
+	FreshCtors       []string       // short func keys whose result is a fresh object
+	MinFuncs         int            // floor: functions with direct accesses confirmed by hand
 	ElemHeldBy       map[string]int // short func key -> slice argument whose elements' locks the wrapper leaves held
 	AltHeld          func(fn *ssa.Function, instr ssa.Instruction) bool
 	SubGuard         func(addr ssa.Value) bool
